@@ -365,7 +365,7 @@ fn miri_failure(line: &str) -> Option<(Failure, J)> {
 pub fn miri_batch(seed: u64, tier: Tier) -> crate::harness::SecondEngine {
     let t0 = std::time::Instant::now();
     let (nscen, nseeds) = match tier {
-        Tier::Quick => (std::env::var("VERIF_MIRI_SCENARIOS").ok().and_then(|s| s.parse().ok()).unwrap_or(8u64), 32u64),
+        Tier::Quick => (std::env::var("VERIF_MIRI_SCENARIOS").ok().and_then(|s| s.parse().ok()).unwrap_or(15u64), 24u64),
         Tier::Thorough => (std::env::var("VERIF_MIRI_SCENARIOS").ok().and_then(|s| s.parse().ok()).unwrap_or(56u64), 64u64),
     };
     let mut ok_runs = 0u64;
@@ -378,10 +378,11 @@ pub fn miri_batch(seed: u64, tier: Tier) -> crate::harness::SecondEngine {
     for i in 0..nscen {
         let scn = Rng::for_run(seed, "C19-miri-scenario", i).next_u64() % 1_000_000_000;
         scenario_seeds.push(scn);
-        // seven of every eight scenarios are first-use races, one setting after the other; the eighth
-        // is a scenario of the general generator
-        let race = format!("race:{}", i - i / 8);
-        let extra: Vec<&str> = if i % 8 == 7 { vec!["validators"] } else { vec![race.as_str()] };
+        // fourteen of every fifteen scenarios are first-use races - each setting in turn, a setter
+        // against a first use, then a setter against a setter; the fifteenth is a scenario of the
+        // general generator
+        let race = format!("race:{}", i - i / 15);
+        let extra: Vec<&str> = if i % 15 == 14 { vec!["validators"] } else { vec![race.as_str()] };
         let out = match miri_run(&scn.to_string(), &extra, &format!("-Zmiri-many-seeds=0..{nseeds}")) {
             Ok(o) => o,
             Err(e) => {
